@@ -460,6 +460,8 @@ def _cast(v, src, dst):
             return int(v)
         if src.kind in "iu":
             if is_sym(v):
+                if z3.is_bv(v) and dst.bits != v.size() and _is_bits_term(v):
+                    return _bv_to_int(v)        # a bit pattern of an Int-represented value: widen/narrow numerically (in range by the harness bounds)
                 if z3.is_bv(v):
                     if dst.bits == v.size():
                         return v
@@ -862,6 +864,9 @@ class ndarray(_OpsMixin):
                 for j in range(k):
                     out.append(z3.simplify(z3.Extract((j + 1) * dt.bits - 1, j * dt.bits, c)))
         out = [_bv_const(c, dt) for c in out]
+        if dt.kind in "iu":
+            # bit patterns of Int-represented values (bitsN(x), or a choice between such) go straight back to their numbers
+            out = [_unwrap_bits(c, dt) for c in out]
         return ndarray(_Store(out), list(range(len(out))), (len(out),), dt)  # snapshot; writes do not propagate (flagged)
 
     def fill(self, v):
@@ -1074,6 +1079,18 @@ class ndarray(_OpsMixin):
     def sort(self, axis=-1, kind=None):
         s = sort(self, kind=kind)
         self[...] = s
+
+
+def _unwrap_bits(c, dt):
+    if not (is_sym(c) and z3.is_bv(c)):
+        return c
+    if z3.is_app(c) and c.decl().name() == "bits%d" % dt.bits and c.decl().arity() == 1:
+        return c.arg(0)
+    if z3.is_app(c) and c.decl().kind() == z3.Z3_OP_ITE:
+        a, b = _unwrap_bits(_bv_const(c.arg(1), dt), dt), _unwrap_bits(_bv_const(c.arg(2), dt), dt)
+        if not (is_sym(a) and z3.is_bv(a)) and not (is_sym(b) and z3.is_bv(b)):
+            return z3.If(c.arg(0), _lift(a), _lift(b))
+    return c
 
 
 def _unbits_syntactic(c, dt):
@@ -2322,3 +2339,10 @@ random = _Random
 def binary_repr(x, width=None):
     s = bin(int(x))[2:]
     return s.zfill(width) if width else s
+
+
+def ascontiguousarray(a, dtype=None):
+    a = asarray(a, dtype=dtype)
+    if a._contig:
+        return a
+    return ndarray(_Store(a._cells()), list(range(a.size)), a.shape, a.dtype)
